@@ -23,7 +23,9 @@ PLAN = {
 
 
 def fresh_name(n):
-    return n[:-1] + '5'        # n020 -> n025: keeps the relative order of all names
+    if len(n) == 4 and n[0] == 'n' and n[1:].isdigit():
+        return n[:-1] + '5'    # n020 -> n025: keeps the relative order of all names
+    return n + '5'             # overlap scheme: 'q' -> 'q5' < 'qr' (a digit sorts before every letter)
 
 
 def base_spec(task):
@@ -240,6 +242,11 @@ def run(tier, seed):
         for tree in skeletons(nmin, nmax, final=False):
             for ivar in ((0, 1) if has_variant(tree) else (0,)):
                 tasks.append((tree, 'asc', ivar, k, 'copy'))
+    # short names made of each other's characters: a renaming to longer names must change nothing either
+    for tree in skeletons(3, 4, history=False, final=False):
+        if "'O'" in repr(tree):
+            tasks.append((tree, 'overlap', 0, 2, 'rename'))
+            tasks.append((tree, 'overlap', 0, 2, 'copy'))
     tasks.sort(key=lambda t: -len(repr(t[0])) * (3 if t[4] == 'rename' else 1))
     results = harness.pmap(work, tasks, chunksize=2)
     agg = harness.Agg()
